@@ -25,18 +25,18 @@ import (
 // reference codec.
 
 type seqOracle struct {
-	s        *sim.Sim
-	prop     string
-	name     string
-	last     uint32
-	have     bool
-	openReq  uint32 // request id of the multi chunk message in progress
-	openHas  bool
-	chunks   int
-	wraps    int
-	multi    int
-	failed   bool
-	history  []string
+	s       *sim.Sim
+	prop    string
+	name    string
+	last    uint32
+	have    bool
+	openReq uint32 // request id of the multi chunk message in progress
+	openHas bool
+	chunks  int
+	wraps   int
+	multi   int
+	failed  bool
+	history []string
 }
 
 // frame checks one chunk written in this direction.
